@@ -108,7 +108,9 @@ def main():
         S = rng.choice([1, 2])
         online = rng.random() < 0.4
         ops = ["not", "and", "or", "implies", "once", "hist", "since", "onceT", "histT"] + ([] if online else ["ev", "alw", "until", "evT", "alwT", "untilT"])
-        g = Gen(rng, vars_=rng.choice([("x",), ("x", "y")]), S=S, ops=ops, ivs=[(0, 1), (1, 2), (0, 3)], bool_atoms=True)
+        delays_only = online and rng.random() < 0.6      # bounded operators as pure delays [d,d]: reliable under chunking
+        g = Gen(rng, vars_=rng.choice([("x",), ("x", "y")]), S=S, ops=ops, ivs=([(1, 1), (2, 2)] if delays_only else [(0, 1), (1, 2), (0, 3)]),
+                bool_atoms=True)
         for _ in range(30):
             phi = g.formula(rng.choice([2, 2, 3]))
             if vars_of(phi) and not any(q["op"] in BIN2 and not vars_of(q) for q in subformulas(phi)):
@@ -132,12 +134,27 @@ def main():
         end = rng.choice([3, 5, 8])
         w = {v: gen_signal(rng, rng.choice([2, 3, 4]), t0=0, S=S, end=end) for v in vs}
         act = "update" if online else "evaluate"
-        evs = [ev_parse(k + 1) for k in range(len(objs))] + [ev_ct(act, w, 1)]
-        evs += [ev_get(nm) for nm in [nm for nm, _ in named] + ["out"] + vs]
+        evs = [ev_parse(k + 1) for k in range(len(objs))]
         rels = []
-        for nm, k in idx.items():
-            evs.append(ev_ct(act, w, k))
-            rels.append({"rel": "get_fn", "x": 1, "y": k, "n": nm})
+        multi = online and (delays_only or not (ops_of(phi) & TIMED)) and rng.random() < 0.7
+        if multi:
+            # several update() calls (a partition of the signals); get_value after each one
+            import c05 as _c05
+            sc = {v: rng.choice(_c05.splits(len(w[v]))) for v in vs}
+            for e in _c05.schedule_events(w, sc, 1):
+                evs.append(e)
+                evs += [ev_get(nm) for nm in [nm for nm, _ in named] + ["out"] + vs]
+                for nm, k in idx.items():
+                    e2 = dict(e); e2["o"] = k
+                    evs.append(e2)
+            for nm, k in idx.items():
+                rels.append({"rel": "get_seq", "x": 1, "y": k, "n": nm})
+        else:
+            evs.append(ev_ct(act, w, 1))
+            evs += [ev_get(nm) for nm in [nm for nm, _ in named] + ["out"] + vs]
+            for nm, k in idx.items():
+                evs.append(ev_ct(act, w, k))
+                rels.append({"rel": "get_fn", "x": 1, "y": k, "n": nm})
         dcases.append(case(objs, evs, rels, kind="ct_on" if online else "ct_off"))
     dtr = runner.run_cases(dcases)
     dvs, dgen, ddist = core.validate("C12_dense", dtr, module="TraceCt")
